@@ -24,7 +24,7 @@ var budgets = map[string]map[string]int{
 	"C04": {"quick": 1000, "thorough": 40000},
 	"C05": {"quick": 2500, "thorough": 60000},
 	"C11": {"quick": 1500, "thorough": 40000},
-	"C17": {"quick": 36000, "thorough": 0}, // thorough: the whole cell grid, set in init
+	"C17": {"quick": 42000, "thorough": 0}, // thorough: the whole cell grid, set in init
 	"C19": {"quick": 1200, "thorough": 30000},
 }
 
